@@ -321,6 +321,8 @@ def run(run, rng):
         # alpha runs whose normal form C has another number of characters (conjoining Hangul jamo compose, Hebrew presentation forms decompose)
         strings += ['love\u1100\u1161\u11a8house1', '\u1112\u1161\u11ab\u1100\u1173\u11af12', 'ab\ufb2acd!', 'pass\ufb2a\ufb2bword', '\u1100\u1161blue\u1102\u1161']
         strings += ['\x7f!\x7f', 'ab\x7f\x7f1', '\x7f\x7fcd2', '\U00017000\U00017001\U00017002\U00017003x1', '\U00017004\U00017001\U00017002\U00017003y2', '\uf8ff1\uf8ff', 'q\x80\x801', '\x80\x80z']
+        # format characters between and inside segments: bidirectional controls, marks, isolates, zero-width characters (a 'Trojan Source' strip would lose them: seeded C05s)
+        strings += ['abc\u202edef1', '\u200e\u200f', 'pass\u2066word\u2069!', '12\u061c34', '\u202a\u202c', 'x\u200bq\u200d9', '!\u202d!', '\u2067love\u2069']
         rng.shuffle(strings)
         case = {'history': hist, 'strings': strings}
         run.guard(case, check_batch, seconds=300)
